@@ -277,8 +277,9 @@ class CallOps:
             return SV('list', elems=list(xs.elems), owned=True, ty=xs.ty)
         q0 = self.seq_of(xs)
         q = st.decls.const('qsorted', 'Int')
-        sig = st.decls.const('perm', 'Int')
-        del st.decls.consts[sig]
+        if st.decls.bound:
+            raise Unsupported('sorted() inside a quantified body', node)
+        sig = st.decls.bound_var('perm')
         st.decls.fun(sig, ['Int'], 'Int')
         n = "(len %s)" % q0
         st.assume(mk_eq("(len %s)" % q, n), 'lib')
@@ -480,6 +481,12 @@ class CallOps:
                 raise Unsupported('no method %s on %s' % (m, c), node)
             groups.setdefault(key, []).append(c)
         keys = sorted(groups)
+        if len(keys) > 1:
+            cons = [self.contracts.get(k) for k in keys]
+            if all(c is not None and c.result_is is not None and not c.modifies and not c.ensures for c in cons) and \
+                    len({(c.result_is, tuple(c.requires)) for c in cons}) == 1:
+                # every override has the same pure contract: no case split needed
+                return self.call_function(keys[0], obj, args, kwargs, node)
         if len(keys) == 1:
             return self.call_function(keys[0], obj, args, kwargs, node)
         d = st.decide(len(keys), 'dispatch:%s' % m)
